@@ -1,5 +1,5 @@
 // =============================================================================
-// TRUSTED PRELUDE (accept unit): A-class function of stream/duplex.rs.
+// PRELUDE (accept unit): vocabulary of the `ack` contract (definitions only, no assumption).
 // =============================================================================
 /// the client behind request `q` has been handed the other half of the pipe of `s`
 pub open spec fn acked(q: DuplexConnectionRequest, s: DuplexStream) -> bool {
@@ -10,17 +10,9 @@ pub open spec fn client_gone(q: DuplexConnectionRequest) -> bool {
     dead(q.ack.id())
 }
 
-impl DuplexConnectionRequest {
-    /// A: `DuplexConnectionRequest::ack` - `.map_err(|_| ..)` has a closure with a `_` pattern parameter, which the
-    /// Verus front end rejects ("only variables are supported here, not general patterns").
-    /// Assumed (read off its body: `DuplexStream::new`, `self.ack.send(tx)`, `Ok(rx)`): the result is `Err` iff
-    /// the connecting client dropped its receiver; on `Ok` that client has been sent the other half of the
-    /// returned stream's pipe.
-    #[verifier::external_body]
-    pub fn ack(self, max_buf_size: Option<usize>) -> (r: Result<DuplexStream, io::Error>)
-        ensures
-            r is Err <==> client_gone(self),
-            r is Ok ==> acked(self, r->Ok_0),
-            r is Err ==> r->Err_0.kind_of() == io::ErrorKind::ConnectionReset,
-    { unimplemented!() }
+/// buffer size of the pipe `ack` creates: the size the client asked for, capped by the server's limit if it has one
+pub open spec fn ack_buf_size(cap: Option<usize>, requested: usize) -> usize {
+    match cap { Some(c) => if c <= requested { c } else { requested }, None => requested }
 }
+// `DuplexConnectionRequest::ack` itself is no longer assumed: it is extracted in units/accept.vxu (acc.ack.*; R30 names the
+// `_` closure parameter of `.map_err(|_| ..)`), and `poll_accept` / `poll_next` are checked against the contract proved there.
